@@ -416,6 +416,8 @@ class Check:
         env["PYTHONHASHSEED"] = "0"
         env[GUARD] = "1"
         env["PYTHONDONTWRITEBYTECODE"] = "1"
+        for v in ("OMP_NUM_THREADS", "OPENBLAS_NUM_THREADS", "MKL_NUM_THREADS"):
+            env[v] = "1"            # many drivers run in parallel; numpy needs no thread pool of its own
         return env
 
     def impl(self, script, payload, timeout=900):
